@@ -13,7 +13,10 @@ path that exists."""
 import copy
 
 MAXCHAIN = 8
-VIDX = {"std::option::Option": {"None": 0, "Some": 1}, "std::result::Result": {"Ok": 0, "Err": 1}}
+VIDX = {"std::option::Option": {"None": 0, "Some": 1}, "std::result::Result": {"Ok": 0, "Err": 1},
+        # a private accessor that rebuilds a `Bound<&T>` from a `&Bound<T>` variant by variant (what `Bound::as_ref` does),
+        # matched on again by its caller
+        "std::ops::Bound": {"Included": 0, "Excluded": 1, "Unbounded": 2}}
 
 
 def _succs(t):
@@ -157,7 +160,7 @@ def _thread_body(body):
             elif mode == "try":
                 v = {"Ok": 0, "Some": 0, "Err": 1, "None": 1}.get(variant)
             else:
-                v = {"None": 0, "Some": 1, "Ok": 0, "Err": 1}.get(variant)
+                v = {"None": 0, "Some": 1, "Ok": 0, "Err": 1, "Included": 0, "Excluded": 1, "Unbounded": 2}.get(variant)
             if v is None:
                 return None
             return arms.get(v, t["otherwise"])
